@@ -484,23 +484,31 @@ M("c02-write-parent", "C02", "_context.py", "C02.R2", "add_resource also publish
             if self._parent is not None:
                 self._parent._resources.setdefault((type_, name), container)
 '''))
-M("c02-lookup-walks-up", "C02", "_context.py", "C02.R3", "get_resources also looks into the parent at lookup time",
+M("c02-lookup-walks-up", "C02", "_context.py", ["C02.R3", "C02.R1"], "get_resources also looks into the parent at lookup time",
   ('''        return {
-            container.name: container.value
-            for container in self._resources.values()
-            if type in container.types
+            name: container.value
+            for (type_, name), container in self._resources.items()
+            if type_ == type
         }
 ''', '''        found = {
-            container.name: container.value
-            for container in self._resources.values()
-            if type in container.types
+            name: container.value
+            for (type_, name), container in self._resources.items()
+            if type_ == type
         }
         if self._parent is not None:
-            for container in self._parent._resources.values():
-                if type in container.types:
-                    found.setdefault(container.name, container.value)
+            for (type_, name), container in self._parent._resources.items():
+                if type_ == type:
+                    found.setdefault(name, container.value)
 
         return found
+'''))
+M("c02-f10-inverse", "C02", "_context.py", "C02.R3", "inverse of the F10 repair: get_resources selects by the types recorded in the container",
+  ('''            name: container.value
+            for (type_, name), container in self._resources.items()
+            if type_ == type
+''', '''            container.name: container.value
+            for container in self._resources.values()
+            if type in container.types
 '''))
 M("c02-shortcut-drops-name", "C02", "_context.py", "C02.R4", "module-level get_resource_nowait ignores the name",
   ("    return current_context().get_resource_nowait(type, name, optional=optional)\n", "    return current_context().get_resource_nowait(type, optional=optional)\n"))
